@@ -34,7 +34,7 @@ import (
 )
 
 func init() {
-	register(vx.CheckSpec{ID: "C12", Shards: 16, QuickBudget: 60 * time.Second, ThoroughBudg: 13 * time.Minute, Run: runC12, ReplayFn: replayC12})
+	register(vx.CheckSpec{ID: "C12", Shards: 16, QuickBudget: 170 * time.Second, ThoroughBudg: 13 * time.Minute, Run: runC12, ReplayFn: replayC12})
 }
 
 var c12Loc = common.Location{0, 0}
@@ -761,7 +761,7 @@ func runC12StateDB(c *vx.Ctx) {
 // c12Slice gives a part its own share of the tier budget, so that a slow machine starves no part
 // completely: expired() is true when the share (or the whole run's deadline) is used up.
 func c12Slice(c *vx.Ctx, frac float64) (expired func() bool) {
-	total := 60 * time.Second
+	total := 150 * time.Second
 	if c.Thorough() {
 		total = 13 * time.Minute
 	}
